@@ -1,6 +1,6 @@
 """C51: the bounded LRU/TTL map (src/base/ClpMap.h) behaves like its specification."""
 import collections
-from vlib import std, hbuild
+from vlib import std, hbuild, corr
 
 PID = "C51"
 META = {
@@ -79,6 +79,7 @@ def gen_case(rng):
     dttl = rng.choice(["-", "-", "0", "1", "5", "60", str(INT_MAX)])
     now = t0
     ttls_seen = [5]
+    added = []
     ops = []
     for _ in range(rng.choice([1, 3, 6, 10, 16, 24, 24, 40, 60])):
         r = rng.random()
@@ -95,6 +96,7 @@ def gen_case(rng):
                 vsz = rng.choice([U64, U64 - 1, 2 ** 63, rng.randrange(0, 5000)])
             vsz = min(max(vsz, 0), U64)
             vid = rng.randrange(1, 1000)
+            added.append(k)
             if rng.random() < 0.15:
                 ops.append("A:%s:%d:%d" % (k, vid, vsz))
             else:
@@ -103,6 +105,8 @@ def gen_case(rng):
                 ttls_seen.append(max(ttl, 0))
                 ops.append("a:%s:%d:%d:%d" % (k, vid, vsz, ttl))
         elif r < 0.72:
+            if added and rng.random() < 0.7:
+                k = rng.choice(added[-3:])      # mostly ask for something recently stored
             ops.append("g:" + k)
         elif r < 0.79:
             ops.append("d:" + k)
@@ -162,8 +166,10 @@ def oracle(case, out):
     and add() answer, memoryUsed(), entries() and the final traversal must be the reference's; accounted memory
     must never exceed the capacity; victims must be the least recently used entries only.
     Returns None or (signature, description)."""
+    if out.startswith("SKIP"):
+        return None   # the harness stopped after an endless loop in an earlier case (reported there)
     if out.startswith("CRASH") or "EXC" in out or "ERR" in out or "BAD-" in out:
-        return ("oracle:crash", "implementation crashed / asserted / broke its own index: " + out[-200:])
+        return ("oracle:crash", "implementation crashed / asserted / looped / broke its own index: " + out[-200:])
     try:
         E, I, steps, ents, flimit = parse_out(out)
     except Exception as ex:
@@ -217,12 +223,11 @@ def oracle(case, out):
             now = int(f[1])
         if iused > limit:
             return ("oracle:mem-over-limit", "%s: memoryUsed()=%d exceeds memLimit()=%d" % (where, iused, limit))
-        if icnt != len(ref):
-            return ("oracle:entries", "%s: entries()=%d, the reference holds %d (wrong victims or missing purge)"
-                    % (where, icnt, len(ref)))
-        if iused != used():
-            return ("oracle:accounting", "%s: memoryUsed()=%d but the stored entries account for %d"
-                    % (where, iused, used()))
+        if icnt != len(ref) or iused != used():
+            return ("oracle:purge-or-accounting",
+                    "%s: entries()=%d memoryUsed()=%d, but the reference LRU map (which purges least recently used "
+                    "entries only, and only as many as needed) holds %d entries accounting for %d bytes: wrong victims, "
+                    "needless or missing purge, or wrong accounting" % (where, icnt, iused, len(ref), used()))
     want = [(k, v[0], v[1], v[2], v[3]) for k, v in reversed(ref.items())]
     if ents != want:
         return ("oracle:final-traversal", "final LRU traversal %s differs from the reference %s (wrong victims, order, "
@@ -263,6 +268,8 @@ def mutate(rng, case):
 
 
 def kind(case, out):
+    if not out.startswith("o") or "EXC" in out or "BAD-" in out:
+        return "abnormal"
     toks = out.partition(" |")[0].split()[1:]
     hit = sum(t.startswith("g=") and not t.startswith("g=n") for t in toks)
     miss = sum(t.startswith("g=n") for t in toks)
@@ -284,6 +291,56 @@ def nontrivial(case, out):
     return "a=1" in head and ("g=" in head.replace("g=n", ""))
 
 
+def shrink(exe, case, sig, rounds=60):
+    """delta-debugging on the operation list: the shortest history found on which the implementation still
+    fails the oracle with the same signature. Returns (case, implementation output, oracle description)."""
+    a = case.split()
+    head, ops = a[:4], a[4:]
+    best = None
+
+    def first_failing(cands):
+        outs = corr.run_lines(exe, [" ".join(head + c) for c in cands], timeout=120)
+        for c, o in zip(cands, outs):
+            v = oracle(" ".join(head + c), o)
+            if v and v[0] == sig:
+                return c, o, v[1]
+        return None
+
+    chunk = max(len(ops) // 2, 1)
+    while chunk >= 1 and rounds > 0 and ops:
+        rounds -= 1
+        cands = [ops[:i] + ops[i + chunk:] for i in range(0, len(ops), chunk)]
+        hit = first_failing([c for c in cands if len(c) < len(ops)])
+        if hit:
+            ops, best = hit[0], hit
+            chunk = min(chunk, max(len(ops) // 2, 1))
+        else:
+            chunk //= 2
+    if best is None:
+        return None
+    return " ".join(head + best[0]), best[1], best[2]
+
+
+def minimise_violations(res):
+    """post-processing of what run_standard found: shrink each failing history and put the reason first"""
+    try:
+        exe = impl()
+    except Exception:
+        return
+    out = []
+    for n, (sig, desc, replay) in enumerate(res.violations):
+        if n < 5 and isinstance(replay, dict) and replay.get("case") and not replay.get("no_failing_input_found"):
+            try:
+                m = shrink(exe, replay["case"], sig)
+            except Exception:
+                m = None
+            if m:
+                replay = dict(replay, original_case=replay["case"], case=m[0], impl=m[1], oracle=m[2])
+                desc = "%s: %s -- minimised history `%s`, implementation answered `%s`" % (PID, m[2], m[0][:300], m[1][:250])
+        out.append((sig, desc, replay))
+    res.violations[:] = out
+
+
 def run(res, tier):
     res.rule = ("operation histories (1..60 ops over 1..12 keys of length 0..40: 40% add [15% of them with the map's default "
                 "TTL], 32% get, 7% del, 8% setMemLimit, 13% clock changes incl. backwards/negative/max time_t) x capacities "
@@ -294,3 +351,4 @@ def run(res, tier):
                      corr_name="ClpmapModel vs src/base/ClpMap.h", gens=["clpmap"],
                      n_quick=20000, n_thorough=300000, seed_salt=51, mutate=mutate,
                      kind_fn=kind, nontrivial_fn=nontrivial)
+    minimise_violations(res)
